@@ -184,7 +184,7 @@ class Gen:
         if u < 0.7 and ints:
             return r.choice(ints)                        # may be out of bounds: runtime error path
         if u < 0.8:
-            return r.choice(["3", "5", "1L", "1b"])
+            return r.choice(["3", "5", "1L", "1b", "0L", "2L", "4294967296L", "4294967297L", "(0L - 4294967295L)", "9223372036854775807L"])
         return "(%s %% 3)" % (r.choice(ints) if ints else "4")
 
     # ---------------------------------------------------------------- statements
@@ -379,6 +379,11 @@ class Gen:
             self.features.add("gate")
             if g in ("rx", "ry", "rz"):
                 ang = r.choice(["0.5f", "1.5f", "3.140625f", "0.25f", "2.0f", "0.75f", "-0.75f", "-0.25f", "-1.5f", "-3.0f", "100.5f", "-12.125f", "0.0f"])
+                if self.edge or r.random() < 0.02:
+                    # an angle that overflows to infinity, or is not a number: refused with a located runtime error
+                    if r.random() < 0.25:
+                        big = "(300000000000000000000000000000000000000.0f * 300000000000000000000000000000000000000.0f * 300000000000000000000000000000000000000.0f * 300000000000000000000000000000000000000.0f * 300000000000000000000000000000000000000.0f)"
+                        ang = r.choice(["(%s * %s)" % (big, big), "(0.0f - %s * %s)" % (big, big), "((%s * %s) - (%s * %s))" % (big, big, big, big)])
                 # angles below the six printed decimals are left out: with an adversarial draw the recorded outcome can have
                 # probability ~1e-14 under the exact angle and 0 under the printed one, which the property's own tolerance excludes
                 return done("%s(%s, %s);" % (g, operand(), ang))
